@@ -20,7 +20,7 @@ RULE = ('random operation histories (append / appendleft / pop / popleft / clear
         'ActiveObject.post_* (object not started). distinct_nontrivial = distinct (capacity, target, op kind, fill level class) tuples '
         'seen with an overflow or a clear')
 CASES = {'quick': 4000, 'thorough': 300000}
-BUDGET = {'quick': 40, 'thorough': 900}
+BUDGET = {'quick': 40, 'thorough': 300}
 REQUIRE = {'ops': 50000, 'overflow_fifo': 500, 'overflow_lifo': 500, 'clears': 500, 'clear_on_fresh': 50, 'protocol_histories': 300}
 ASSUME = ['sequential histories (one thread); concurrent use is C04/C05']
 
